@@ -992,6 +992,8 @@ impl Wallet {
 
     let amount = decimal.to_integer(entry.divisibility)?;
 
+    ensure!(amount > 0, "rune amount must be greater than zero");
+
     let inscribed_outputs = self
       .inscriptions()
       .keys()
